@@ -82,7 +82,9 @@ CALIB_SOURCES = ['catalog.number_test', 'catalog.spatial_test', 'catalog.magnitu
                  'catalog.pseudolikelihood_test']
 DTYPES_EXTRA = [[d, m] for d in ('float64', 'int64', 'float32') for m in ('float64', 'int64', 'float32')
                 if (d, m) != ('float64', 'float64')]
-NAMES = ['', 'x', 'né "q" \\ \n', None]
+NAMES = ['', 'x', 'né "q" \\ \n', None,
+         # names that look like the structure of the file they are stored in, or carry significant white space
+         'ETAS [ b = 1.0 ]', '[ 1.0,  2.0 ]', '{ "a" : [ 1 , 2 ] }', '  padded  ', 'a,b;c:d', 'NaN', 'null', '1e5', 'tab\there']
 
 MODULES = {'poisson': 'csep.core.poisson_evaluations', 'binomial': 'csep.core.binomial_evaluations',
            'brier': 'csep.core.brier_evaluations', 'catalog': 'csep.core.catalog_evaluations'}
@@ -217,6 +219,14 @@ def cases(tier, seed):
     for dh, a in pairs:
         for chunk in space.chunks(shp, 12 if thorough else 25):
             yield dict(kind='region', dh=dh, anchor=list(a), lattices=chunk, mode=mode)
+    # complete global lattices (45 and 30 degrees) with longitude running fastest / latitude running fastest, under the names a
+    # user or the library would give them
+    for dh_ in (45.0, 30.0):
+        nx_, ny_ = int(360 / dh_), int(180 / dh_)
+        lonfast = [[i, j] for j in range(ny_) for i in range(nx_)]
+        latfast = [[i, j] for i in range(nx_) for j in range(ny_)]
+        for nm_ in ('global', 'world', 'verif'):
+            yield dict(kind='region', dh=dh_, anchor=[-180.0, -90.0], lattices=[lonfast, latfast, lonfast[::-1]], mode='cross', name=nm_)
 
 
 # --------------------------------------------------------------------------------------------- harness guards
@@ -825,7 +835,7 @@ def run_region(ctx, case):
     for cells in case['lattices']:
         cells = [tuple(c) for c in cells]
         origins = lattice_origins(dh, anchor, cells)
-        reg = fixtures.cartesian_region(origins, dh)
+        reg = fixtures.cartesian_region(origins, dh, name=case.get('name', 'verif'))
         lons, lats = probes(dh, anchor, cells, mode)
         ref, ref_exc = observe(reg, lons, lats, stats)
         # history before the region is serialised: the caller converted the arrays it was handed by origins()/midpoints() to the
@@ -858,7 +868,7 @@ def run_region(ctx, case):
         ctx.h.update(repr((dh, anchor, cells)).encode())
         ctx.h.update(ref.tobytes())
         rep = dict(kind='region', dh=dh, anchor=list(anchor), lattices=[[list(c) for c in cells]], mode=mode,
-                   single=True)
+                   single=True, name=case.get('name', 'verif'))
         lat_desc = f'dh={dh} anchor={anchor} cells(col,row)={cells} origins={origins}'
         if ctx.sample is None:
             ctx.sample = dict(dh=dh, anchor=list(anchor), cells=[list(c) for c in cells], probes=len(lons),
